@@ -125,6 +125,13 @@ impl Enc for () {
     fn dec(_: &Value) -> Self {}
 }
 
+/// a host function whose return value crosses the boundary as an Option (niche-optimised on the Rust side
+/// for bool / char / String payloads, tagged on the Roto side)
+fn optif<T>(tag: i32, c: bool, v: T) -> Option<T> {
+    log(json!(["optif", tag]));
+    if c { Some(v) } else { None }
+}
+
 fn emit<T: Enc>(tag: i32, v: T) -> T {
     log(json!(["emit", tag, v.enc()]));
     v
@@ -159,6 +166,19 @@ fn runtime() -> Runtime<NoCtx> {
         fn in_bool(k: i32) -> bool { Enc::dec(&input(k)) }
         fn in_char(k: i32) -> char { Enc::dec(&input(k)) }
         fn in_str(k: i32) -> RotoString { Enc::dec(&input(k)) }
+        fn optif_i8(tag: i32, c: bool, v: i8) -> Option<i8> { optif(tag, c, v) }
+        fn optif_u8(tag: i32, c: bool, v: u8) -> Option<u8> { optif(tag, c, v) }
+        fn optif_i16(tag: i32, c: bool, v: i16) -> Option<i16> { optif(tag, c, v) }
+        fn optif_u16(tag: i32, c: bool, v: u16) -> Option<u16> { optif(tag, c, v) }
+        fn optif_i32(tag: i32, c: bool, v: i32) -> Option<i32> { optif(tag, c, v) }
+        fn optif_u32(tag: i32, c: bool, v: u32) -> Option<u32> { optif(tag, c, v) }
+        fn optif_i64(tag: i32, c: bool, v: i64) -> Option<i64> { optif(tag, c, v) }
+        fn optif_u64(tag: i32, c: bool, v: u64) -> Option<u64> { optif(tag, c, v) }
+        fn optif_f32(tag: i32, c: bool, v: f32) -> Option<f32> { optif(tag, c, v) }
+        fn optif_f64(tag: i32, c: bool, v: f64) -> Option<f64> { optif(tag, c, v) }
+        fn optif_bool(tag: i32, c: bool, v: bool) -> Option<bool> { optif(tag, c, v) }
+        fn optif_char(tag: i32, c: bool, v: char) -> Option<char> { optif(tag, c, v) }
+        fn optif_str(tag: i32, c: bool, v: RotoString) -> Option<RotoString> { optif(tag, c, v) }
         fn tick(tag: i32) { log(json!(["tick", tag])); }
         fn mk(tag: i32) -> Val<Tr24> {
             log(json!(["mk", tag]));
